@@ -7,6 +7,7 @@ import Rooc.Syntax.Wire
 import Rooc.Syntax.Parse
 import Rooc.Syntax.Program
 import Rooc.Syntax.Ref
+import Rooc.Drv.C09
 namespace Rooc.Drv.C11
 open Rooc Sexp Rooc.Syntax
 
@@ -29,9 +30,22 @@ def linkOk (e : PExp) : Bool :=
      | .ok ts => ts == fmtToks e
      | .unsupported => true)
 
+def rawOpaque (p : RawProgram) : Bool :=
+  let es : List PExp :=
+    p.objective.body.toList
+      ++ p.constraints.flatMap (fun c => [c.lhs, c.rhs] ++ c.iters
+          ++ (match c.name with | some (.compound _ idx) => idx | _ => []))
+      ++ p.constants.map (·.2)
+      ++ p.domains.flatMap (fun d => (d.args.getD []) ++ d.iters
+          ++ d.vars.flatMap (fun | .compound _ idx => idx | _ => []))
+  C09.hasOpaqueList es
+
 /-- model requests for C11: `(format <premodel>)` → the text `RoocParser::format` prints for that `PreModel`. -/
 def handle (α : Type) [Arith α] [Wire α] : List Sexp → Sexp
   | [.atom "format", m] =>
+    match grammarDrift with
+    | some rule => app "err" [.atom "grammar-rule-changed", .atom rule]
+    | none =>
     match PModel.dec m with
     | some m =>
       match (exprSlots m).find? (fun e => !(linkOk e)) with
@@ -44,14 +58,24 @@ def handle (α : Type) [Arith α] [Wire α] : List Sexp → Sexp
         then app "err" [.atom "program-token-link-broken"]
         else app "ok" [.str m.text]
     | none => app "err" [.atom "decode"]
-  -- `(parse-program "<text>")` → the `PreModel` the program-level parser model reads (fragment without iterations)
+  -- `(parse-program "<text>")` → the `PreModel` the program-level parser model reads, or the class of the rejection
   | [.atom "parse-program", .str s] =>
-    match parseProgramText s.toList with
-    | .ok m => app "ok" [m.enc]
-    | .err .reject => app "err" [.atom "reject"]
-    | .err .panic => app "err" [.atom "panic"]
-    | .err .fuel => app "err" [.atom "fuel"]
+    match grammarDrift with
+    | some rule => app "err" [.atom "grammar-rule-changed", .atom rule]
+    | none =>
+    match lex s.toList with
     | .unsupported => app "err" [.atom "unsupported"]
+    | .ok toks =>
+      match parseProgramRaw toks with
+      | .error .reject => app "err" [.atom "reject", .atom "peg"]
+      | .error .panic => app "err" [.atom "panic"]
+      | .error .fuel => app "err" [.atom "fuel"]
+      | .ok raw =>
+        match buildProgram raw with
+        | .error e => app "err" [.atom "reject", .atom e]
+        | .ok m =>
+          if rawOpaque raw then app "err" [.atom "unsupported"]
+          else app "ok" [m.enc, .atom (if printable m then "in-fragment" else "out-of-fragment")]
   | _ => app "err" [.atom "bad-request"]
 
 /-! ### oracle: the property itself on the implementation's output -/
@@ -176,6 +200,45 @@ def hasExponentNumber (d : String) : Bool :=
     | [] => false
   go d.toList
 
+mutual
+/-- a `range(from, to, <boolean literal>)` call that is NOT the iterator of an iteration: the printer writes the
+sugar `from..to`, which the grammar only reads in iterator position -/
+partial def rangeOutsideIterator : PExp → Bool
+  | .call n as => isRangeSugar n as || as.any rangeOutsideIterator
+  | .cvar _ as | .access _ as | .block _ as => as.any rangeOutsideIterator
+  | .scoped _ _ its b => its.any rangeInIterator || rangeOutsideIterator b
+  | .bin _ l r => rangeOutsideIterator l || rangeOutsideIterator r
+  | .un _ e => rangeOutsideIterator e
+  | _ => false
+/-- the same below an iterator (the iterator itself may be the sugar) -/
+partial def rangeInIterator : PExp → Bool
+  | .call "range" [a, b, .bool _] => rangeOutsideIterator a || rangeOutsideIterator b
+  | e => rangeOutsideIterator e
+end
+
+/-- a compound variable with a float index `x_{1.5}` is printed `x_1.5`, which the builder of compound variables refuses -/
+partial def floatIndex : PExp → Bool
+  | .cvar _ as => as.any (fun | .num _ => true | e => floatIndex e)
+  | .access _ as | .call _ as | .block _ as => as.any floatIndex
+  | .scoped _ _ its b => its.any floatIndex || floatIndex b
+  | .bin _ l r => floatIndex l || floatIndex r
+  | .un _ e => floatIndex e
+  | _ => false
+
+/-- a compound variable with a string index `x_{"a"}` is printed `x_a`, which is read as the index variable `a`
+(a string index is only printed bare when it is a literal name fragment `_2`) -/
+partial def stringIndex : PExp → Bool
+  | .cvar _ as => as.any (fun | .str s => !(s.startsWith "_") | e => stringIndex e)
+  | .access _ as | .call _ as | .block _ as => as.any stringIndex
+  | .scoped _ _ its b => its.any stringIndex || stringIndex b
+  | .bin _ l r => stringIndex l || stringIndex r
+  | .un _ e => stringIndex e
+  | _ => false
+
+/-- `Debug` of a mixed array: `[Integer(1), Boolean(true)]` -/
+def hasDebugArray (d : String) : Bool :=
+  ["Integer(", "Boolean(", "Number(", "String(", "PositiveInteger("].any fun k => (d.splitOn k).length > 1
+
 def modelNames (m : PModel) : List String :=
   expNames m.objective
     ++ m.constraints.flatMap (fun c => (match c.name with | some (.plain n) => [n] | _ => []) ++ expNames c.lhs ++ expNames c.rhs ++ c.iters.flatMap expNames)
@@ -192,6 +255,15 @@ def slots (m : PModel) : List (String × PExp) :=
          | .boolean => []
          | .nonNegReal a b | .real a b => (a.toList ++ b.toList).map (("domain bound", ·))
          | .intRange a b => [("domain bound", a), ("domain bound", b)]) ++ d.iters.map (("domain iteration", ·)))
+
+/-- expression slots that are no iterators / that are the iterators of `for` clauses -/
+def slotsNoIter (m : PModel) : List PExp :=
+  [m.objective] ++ m.constraints.flatMap (fun c => [c.lhs, c.rhs]) ++ m.constants.map (·.2)
+    ++ m.domains.flatMap (fun d => match d.ty with
+        | .boolean => []
+        | .nonNegReal a b | .real a b => a.toList ++ b.toList
+        | .intRange a b => [a, b])
+def iterSlots (m : PModel) : List PExp := m.constraints.flatMap (·.iters) ++ m.domains.flatMap (·.iters)
 
 def opName (o : BinOp) : String := o.name
 
@@ -229,9 +301,45 @@ def sameSkeleton (a b : PModel) : Bool :=
               | .intRange _ _, .intRange _ _ => true
               | _, _ => false))
 
+/-- every expression of a program read as the defective builder of range iterators reads it (Drv/C09) -/
+def nestedRangeModel (m : PModel) : PModel :=
+  let e := C09.nestedRangeReading
+  let name : Option CName → Option CName
+    | some (.compound n idx) => some (.compound n (idx.map e))
+    | other => other
+  { m with
+    objective := e m.objective,
+    constraints := m.constraints.map fun c =>
+      { c with name := name c.name, lhs := e c.lhs, rhs := e c.rhs, iters := c.iters.map C09.nestedRangeIter },
+    constants := m.constants.map fun k => (k.1, e k.2),
+    domains := m.domains.map fun d =>
+      { d with
+        vars := d.vars.filterMap fun v => name (some v),
+        ty := (match d.ty with
+          | .boolean => .boolean
+          | .nonNegReal a b => .nonNegReal (a.map e) (b.map e)
+          | .real a b => .real (a.map e) (b.map e)
+          | .intRange a b => .intRange (e a) (e b)),
+        iters := d.iters.map C09.nestedRangeIter } }
+
+/-- classification of a parse of the implementation that differs from the parser model: the known defect of the
+range iterators, or nothing (the difference is then reported as a break of the correspondence) -/
+def classifyParse (text : String) (impl : Sexp) : Sexp :=
+  match lex text.toList with
+  | .unsupported => app "ok" [.atom "skipped-unsupported"]
+  | .ok toks =>
+    match parseProgram toks, impl with
+    | .ok m, .list [.atom "ok", im, _] =>
+      if toString m.enc == toString im then app "ok" [.atom "same"]
+      else if toString (nestedRangeModel m).enc == toString im then
+        app "violation" [.atom "range-bound-read-from-nested-range"]
+      else app "ok" [.atom "differs-unclassified"]
+    | _, _ => app "ok" [.atom "not-compared"]
+
 /-- exact oracle: the PROPERTY evaluated on the implementation's own answer.
 `(check-format <premodel of s> <premodel of format(s) | reject | panic> <idempotent?> <models: same|differ|broke|repaired|na>)` -/
 def oracle : List Sexp → Sexp
+  | [.atom "check-parse", .str text, impl] => classifyParse text impl
   | [.atom "check-format", before, after, .atom idem, .atom models] =>
     match PModel.dec before with
     | none => app "err" [.atom "decode"]
@@ -247,7 +355,17 @@ def oracle : List Sexp → Sexp
             match lits.1.find? integralBeyondI64, lits.2.find? hasExponentNumber with
             | some t, _ => app "violation" [.atom "integral-float-beyond-i64-printed-as-integer", .str t]
             | none, some d => app "violation" [.atom "array-number-printed-in-exponent-notation", .str d]
-            | none, none => app "violation" [.atom "formatted-text-does-not-parse"]
+            | none, none =>
+              match lits.2.find? hasDebugArray with
+              | some d => app "violation" [.atom "mixed-array-printed-in-debug-form", .str d]
+              | none =>
+                let exps := (slots b).map (·.2)
+                  ++ b.constraints.flatMap (fun c => match c.name with | some (.compound n idx) => [PExp.cvar n idx] | _ => [])
+                  ++ b.domains.flatMap (fun d => d.vars.filterMap (fun | .compound n idx => some (PExp.cvar n idx) | _ => none))
+                if (slotsNoIter b).any rangeOutsideIterator || (iterSlots b).any rangeInIterator then
+                  app "violation" [.atom "range-call-printed-as-sugar-outside-iterator"]
+                else if exps.any floatIndex then app "violation" [.atom "float-index-of-compound-variable-printed-bare"]
+                else app "violation" [.atom "formatted-text-does-not-parse"]
       | a =>
         match PModel.dec a with
         | none => app "err" [.atom "decode-after"]
@@ -260,7 +378,9 @@ def oracle : List Sexp → Sexp
               | some (p, c, side) =>
                 app "violation" [.atom ("paren-dropped:" ++ opName p ++ "/" ++ opName c ++ "/" ++ side),
                   .atom (if valueChanges x.2 y.2 then "value-changes" else "tree-only"), .str x.1, .str (fmtExp x.2)]
-              | none => app "violation" [.atom "format-changes-expression", .str x.1, .str (fmtExp x.2), .str (fmtExp y.2)]
+              | none =>
+                if stringIndex x.2 then app "violation" [.atom "string-index-of-compound-variable-printed-bare", .str x.1, .str (fmtExp x.2)]
+                else app "violation" [.atom "format-changes-expression", .str x.1, .str (fmtExp x.2), .str (fmtExp y.2)]
             | none =>
               if models == "differ" || models == "broke" then app "violation" [.atom ("compiled-model-" ++ models)]
               else if idem != "true" then app "violation" [.atom "format-not-idempotent"]
